@@ -73,10 +73,12 @@ Fixpoint take_while (p : byte -> bool) (l : list byte) : list byte :=
 Definition num_of (l : list byte) : Z := fold_left (fun acc b => acc * 10 + (Z.of_N (Byte.to_N b) - 48))%Z l 0%Z.
 
 (* the two counts of a Phylip header *)
+(* (the lexers read a NUL as "end of file" inside a run of blanks and do not put it back: it is skipped) *)
+Definition is_blank0 (b : byte) : bool := is_blank b || beqb b x00.
 Definition phylip_header (inp : list byte) : Z * Z :=
-  let l1 := drop_while is_blank inp in
+  let l1 := drop_while is_blank0 inp in
   let n1 := take_while is_digit l1 in
-  let l2 := drop_while is_blank (drop_while is_digit l1) in
+  let l2 := drop_while is_blank0 (drop_while is_digit l1) in
   (num_of n1, num_of (take_while is_digit l2)).
 
 Definition wellformed_alignment (rs : rows) (len : Z) : bool :=
